@@ -4,6 +4,7 @@ package encryption
 
 const vKey = "0123456789abcdef"
 
+// AES-GCM decryption of arbitrary (truncated, corrupted) bytes: an error, never a crash, never a plaintext the proxy did not seal
 // verif: unwind=6 strlen=16 also=C19
 func vh_C13_gcm_decrypt() {
 	c, err := NewGCMCipher([]byte(vKey))
@@ -16,6 +17,7 @@ func vh_C13_gcm_decrypt() {
 	verifReach("rejected")
 }
 
+// what the GCM cipher encrypted decrypts to the same bytes
 // verif: unwind=6 strlen=16 also=C19
 func vh_C13_gcm_roundtrip() {
 	c, err := NewGCMCipher([]byte(vKey))
@@ -28,6 +30,7 @@ func vh_C13_gcm_roundtrip() {
 	verifReach("end")
 }
 
+// AES-CFB decryption of arbitrary bytes: an error only for input shorter than the IV, never a crash
 // verif: unwind=6 strlen=16 concretize=40 also=C19 paths=200
 func vh_C13_cfb_decrypt() {
 	c, err := NewCFBCipher([]byte(vKey))
